@@ -420,6 +420,26 @@ func (h *verifC13H) step(ws []string) (res string) {
 		}
 		synctest.Wait()
 		return h.cseq()
+	case "cunsub":
+		if h.cnode == nil {
+			return "bad-op"
+		}
+		urw := testReplyWriterWrapper()
+		if err := h.cclient.handleUnsubscribe(&protocol.UnsubscribeRequest{Channel: "ch"}, &protocol.Command{Id: 3}, time.Now(), urw.rw); err != nil {
+			return "cunsub-failed"
+		}
+		synctest.Wait()
+		return h.cseq()
+	case "csub":
+		if h.cnode == nil {
+			return "bad-op"
+		}
+		srw := testReplyWriterWrapper()
+		if err := h.cclient.handleSubscribe(&protocol.SubscribeRequest{Channel: "ch"}, &protocol.Command{Id: 4}, time.Now(), srw.rw); err != nil {
+			return "csub-failed"
+		}
+		synctest.Wait()
+		return h.cseq()
 	case "csleep":
 		if h.cnode == nil || len(ws) != 2 {
 			return "bad-op"
